@@ -63,6 +63,11 @@ def step (st : St) (ts : List String) : St × String :=
         | none => ({ st with count := some es.length }, "ok")
       | none => (st, "reject bad-dump")
   | ["dump"], [] => (st, "reject bad-dump")
+  | ["comb"], _ :: sz :: _ => match (field sz "size").bind String.toInt?, st.count with
+      -- the combined reading counts this cache's stored entries plus the peer's two
+      | some n, some c => if n == (c : Int) + 2 then (st, "ok") else (st, s!"reject combined-size-mismatch stat={n} stored={c}+2")
+      | some _, none => (st, "ok")
+      | none, _ => (st, "reject bad-comb")
   | ["stats"], sz :: _ => match (field sz "size").bind String.toInt? with
       | some n =>
         if n > st.bound then (st, s!"reject size-stat-over-capacity {n}>{st.bound}")
